@@ -14,7 +14,7 @@ func init() {
 	register(&propDef{
 		id: "C02",
 		li: levelInfo{
-			Level: "other",
+			Level:       "other",
 			Explanation: "Static ownership (typestate) analysis. Every request object acquired in proc/redis (parameter of a consuming function, closure capture, constructor result that is waited on, receive from a request queue, child of a split) is followed along every acyclic CFG path of its function and of one loop iteration; on each path it must be completed exactly once - directly (SetResponse), by hand-off into a request queue, by a callee whose inferred summary consumes it, or by delegation to a hook of another request. Summaries (consumes / borrows / consumes-iff-Stop / wraps-iff-err-nil / delegates) are inferred bottom-up over the VTA call graph. Further rules: the terminal drain covers every request queue and runs after both loops are joined; every blocking queue operation is a select case next to the connection's quit latch; an enqueue that races with the final drain re-tests the latch and drains; child counters of split requests; close(done) only inside SetResponse. Decides the shape of the code on all paths; real scheduling and timing are not decided.",
 			Assumptions: []string{"a request is shared only through the queues, hooks and wrappers the engine models (no other aliasing of *simpleRequest / *rawRequest)"},
 			TrustedBase: []string{"go/ssa", "VTA call graph", "samlint eown.go path enumeration"},
@@ -262,12 +262,12 @@ func reportOwn(c *Ctx, e *ownEngine, rule string, filter func(fn *ssa.Function) 
 
 // queue roles of the backend connection
 type queueRoles struct {
-	clientT   *types.Named
-	quit      *types.Var
-	queues    []*types.Var
-	drain     *ssa.Function
-	drainSel  *ssa.Select
-	start     *ssa.Function
+	clientT  *types.Named
+	quit     *types.Var
+	queues   []*types.Var
+	drain    *ssa.Function
+	drainSel *ssa.Select
+	start    *ssa.Function
 }
 
 func checkQueues(c *Ctx, e *ownEngine) {
